@@ -891,8 +891,9 @@ class Filters:
             iterable_fmt = self._get_iterable_format()
             result = iterable_fmt.format(result)
 
-        if result.startswith('"'):
-            return f"ForwardRef({result})"
+        if result.startswith('"') or ' | "' in result:
+            # A union with forward references is a single expression
+            return 'ForwardRef("{}")'.format(result.replace('"', ""))
 
         return f"Type[{result}]"
 
